@@ -41,6 +41,9 @@ COMBINATORS = {
     "core::option::Option::<T>::map_or": (OPTION, None, [("ret", ("arg", 1)), ("ret", ("call", 2, True))]),
     "core::option::Option::<T>::map_or_else": (OPTION, None, [("ret", ("call", 1, False)), ("ret", ("call", 2, True))]),
     "core::option::Option::<T>::or_else": (OPTION, OPTION, [("ret", ("call", 1, False)), ("wrap:Some", P)]),
+    "core::option::Option::<T>::unwrap_or": (OPTION, None, [("ret", ("arg", 1)), ("ret", P)]),
+    "core::option::Option::<T>::or": (OPTION, OPTION, [("ret", ("arg", 1)), ("wrap:Some", P)]),
+    "core::option::Option::<T>::and": (OPTION, OPTION, [("wrap:None", None), ("ret", ("arg", 1))]),
     "core::result::Result::<T, E>::map": (RESULT, RESULT, [("wrap:Ok", ("call", 1, True)), ("wrap:Err", P)]),
     "core::result::Result::<T, E>::map_err": (RESULT, RESULT, [("wrap:Ok", P), ("wrap:Err", ("call", 1, True))]),
     "core::result::Result::<T, E>::and_then": (RESULT, RESULT, [("ret", ("call", 1, True)), ("wrap:Err", P)]),
@@ -546,6 +549,100 @@ class Normalizer:
         self.notes.append("N2 transpose desugared in %s" % body["def"])
         return True
 
+    def _disc_switch(self, body, place, adt, a0, a1, span, tag):
+        d = self.new_local(body, "isize", "discriminant for desugared %s" % tag)
+        st = self.assign(self.place(d, "isize"), {"k": "discriminant", "p": copy.deepcopy(place), "adt": adt,
+                                                  "variants": [{"name": n, "idx": i, "discr": str(i)} for i, n in enumerate(VARIANTS[adt])]}, span)
+        un = self.new_block(body, [], {"k": "unreachable", "span": span})
+        return st, {"k": "switch", "discr": self.mv(self.place(d, "isize")), "arms": [{"v": "0", "t": a0}, {"v": "1", "t": a1}],
+                    "otherwise": un, "span": span, "desugared": tag}
+
+    def try_option_misc(self, unit, body, bb):
+        """Option::zip / Option::filter / bool::then / bool::then_some as the matches they stand for."""
+        t = body["blocks"][bb]["term"]
+        c = t["callee"].get("def")
+        if t.get("target") is None:
+            return False
+        span, dest, target = t["span"], t["dest"], t["target"]
+        goto = {"k": "goto", "target": target, "span": span}
+        blk = body["blocks"][bb]
+        none_blk = lambda: self.new_block(body, [self.assign(copy.deepcopy(dest), self.agg(OPTION, "None", []), span)], dict(goto))  # noqa: E731
+        if c == "core::option::Option::<T>::zip" and len(t["args"]) == 2 and all(a["k"] != "const" for a in t["args"]):
+            pa, pb = t["args"][0]["p"], t["args"][1]["p"]
+            ta, tb = split_targs(pa["ty"]), split_targs(pb["ty"])
+            if not (pa["ty"].startswith(OPTION + "<") and pb["ty"].startswith(OPTION + "<") and ta and tb):
+                return False
+            tup_ty = "(%s, %s)" % (ta[0], tb[0])
+            tup = self.new_local(body, tup_ty, "pair of desugared zip")
+            both = self.new_block(body, [
+                self.assign(self.place(tup, tup_ty), {"k": "aggregate", "ak": "tuple", "ops": [self.mv(self.variant_payload(pa, OPTION, "Some", 1, ta[0])),
+                                                                                            self.mv(self.variant_payload(pb, OPTION, "Some", 1, tb[0]))]}, span),
+                self.assign(copy.deepcopy(dest), self.agg(OPTION, "Some", [self.mv(self.place(tup, tup_ty))]), span)], dict(goto))
+            st2, sw2 = self._disc_switch(body, pb, OPTION, none_blk(), both, span, c)
+            inner = self.new_block(body, [st2], sw2)
+            st1, sw1 = self._disc_switch(body, pa, OPTION, none_blk(), inner, span, c)
+            blk["stmts"].append(st1)
+            blk["term"] = sw1
+            self.notes.append("N2 zip desugared in %s" % body["def"])
+            return True
+        if c == "core::option::Option::<T>::filter" and len(t["args"]) == 2 and t["args"][0]["k"] != "const":
+            po = t["args"][0]["p"]
+            to = split_targs(po["ty"])
+            w = self.chase(body, t["args"][1])
+            if not (po["ty"].startswith(OPTION + "<") and to) or w is None or w[0] not in ("fn", "closure"):
+                return False
+            if w[0] == "closure":
+                u, cb = self.lookup(unit, w[1])
+                if cb is None or (u, w[1]) in self.busy or cb.get("coroutine"):
+                    return False
+            saved = (len(body["locals"]), len(body["blocks"]))
+            keep = self.new_local(body, "bool", "predicate result of desugared filter")
+            pref = self.new_local(body, "&" + to[0], "&payload for desugared filter")
+            some_blk = self.new_block(body, [self.assign(copy.deepcopy(dest), self.agg(OPTION, "Some", [self.mv(self.variant_payload(po, OPTION, "Some", 1, to[0]))]), span)], dict(goto))
+            test = self.new_block(body, [], {"k": "switch", "discr": self.mv(self.place(keep, "bool")), "arms": [{"v": "0", "t": none_blk()}], "otherwise": some_blk, "span": span})
+            entry = self.emit_invoke(unit, body, t["args"][1], w, [self.mv(self.place(pref, "&" + to[0]))], self.place(keep, "bool"), test, span)
+            if entry is None:
+                del body["locals"][saved[0]:]
+                del body["blocks"][saved[1]:]
+                return False
+            pre = self.new_block(body, [self.assign(self.place(pref, "&" + to[0]), {"k": "ref", "bk": "shared", "p": self.variant_payload(po, OPTION, "Some", 1, to[0])}, span)],
+                                 {"k": "goto", "target": entry, "span": span})
+            st1, sw1 = self._disc_switch(body, po, OPTION, none_blk(), pre, span, c)
+            blk["stmts"].append(st1)
+            blk["term"] = sw1
+            if w[0] == "closure":
+                self.consumed.add((self.lookup(unit, w[1])[0], w[1]))
+            self.notes.append("N2 filter desugared in %s" % body["def"])
+            return True
+        if c in ("core::bool::<impl bool>::then_some", "core::bool::<impl bool>::then") and len(t["args"]) == 2:
+            cond = t["args"][0]
+            if c.endswith("then_some"):
+                some_blk = self.new_block(body, [self.assign(copy.deepcopy(dest), self.agg(OPTION, "Some", [t["args"][1]]), span)], dict(goto))
+            else:
+                w = self.chase(body, t["args"][1])
+                if w is None or w[0] not in ("fn", "closure"):
+                    return False
+                if w[0] == "closure":
+                    u, cb = self.lookup(unit, w[1])
+                    if cb is None or (u, w[1]) in self.busy or cb.get("coroutine"):
+                        return False
+                saved = (len(body["locals"]), len(body["blocks"]))
+                dta = split_targs(dest["ty"])
+                rty = dta[0] if dta else "?"
+                r = self.new_local(body, rty, "result of desugared then closure")
+                fin = self.new_block(body, [self.assign(copy.deepcopy(dest), self.agg(OPTION, "Some", [self.mv(self.place(r, rty))]), span)], dict(goto))
+                some_blk = self.emit_invoke(unit, body, t["args"][1], w, [], self.place(r, rty), fin, span)
+                if some_blk is None:
+                    del body["locals"][saved[0]:]
+                    del body["blocks"][saved[1]:]
+                    return False
+                if w[0] == "closure":
+                    self.consumed.add((self.lookup(unit, w[1])[0], w[1]))
+            blk["term"] = {"k": "switch", "discr": cond, "arms": [{"v": "0", "t": none_blk()}], "otherwise": some_blk, "span": span, "desugared": c}
+            self.notes.append("N2 %s desugared in %s" % (c.rsplit("::", 1)[-1], body["def"]))
+            return True
+        return False
+
     # ------------------------------------------------------------------ N3: awaited workspace coroutines
     def try_poll(self, unit, body, bb):
         t = body["blocks"][bb]["term"]
@@ -1016,7 +1113,7 @@ class Normalizer:
                 b = body["blocks"][i]
                 if not b["cleanup"] and b["term"]["k"] == "call" and len(body["blocks"]) < 4000:
                     self._unit = unit
-                    if (self.try_inline_fn(unit, body, i) or self.try_combinator(unit, body, i) or self.try_transpose(body, i)
+                    if (self.try_inline_fn(unit, body, i) or self.try_combinator(unit, body, i) or self.try_transpose(body, i) or self.try_option_misc(unit, body, i)
                             or self.try_poll(unit, body, i) or self.try_cmp(body, i) or self.try_entry(body, i)
                             or self.try_iter_loop(unit, body, i) or self.try_range(body, i)):
                         changed = True
